@@ -32,6 +32,9 @@ type c19Session struct {
 	Version int  `json:"version"` // -1 = build predating version tracking
 	Blocks  int  `json:"blocks"`
 	Kill    bool `json:"kill"`
+	// Force: if the start is refused, the operator overrides the check
+	// (DisableHardForkCheck) and the session syncs its blocks anyway.
+	Force bool `json:"force,omitempty"`
 }
 
 type c19Fork struct {
@@ -51,7 +54,7 @@ func init() { Register(checkC19{}) }
 func (checkC19) ID() string    { return "C19" }
 func (checkC19) Level() string { return "exploration" }
 func (checkC19) Rule() string {
-	return "session histories drawn from the seed: 2..7 sessions, each with a build sync-version in {pre-tracking, 0, 1, 2, 3}, a number of blocks to sync and a clean stop or a kill; one or two fork heights with minimum versions placed inside the chain, biased to fall exactly on, one below and one above session boundaries; the node constructor's verdict at every start is compared with the reference predicate; distinct = distinct (versions-by-height pattern relative to the forks, starting version, verdict)"
+	return "session histories drawn from the seed: 2..7 sessions, each with a build sync-version in {pre-tracking, 0, 1, 2, 3}, a number of blocks to sync, a clean stop or a kill, and whether a refused start is forced with the override (the session then syncs under DisableHardForkCheck); one or two fork heights with minimum versions placed inside the chain, biased to fall exactly on, one below and one above session boundaries; the node constructor's verdict at every start is compared with the reference predicate; distinct = distinct (versions-by-height pattern relative to the forks, starting version, verdict)"
 }
 
 func (checkC19) Gen(seed uint64, tier string) (*Scenario, error) {
@@ -78,7 +81,7 @@ func (checkC19) Gen(seed uint64, tier string) (*Scenario, error) {
 		if s > 0 && rng.Intn(3) == 0 {
 			v = plan.Sessions[s-1].Version // same build continues
 		}
-		plan.Sessions = append(plan.Sessions, c19Session{Version: v, Blocks: k, Kill: rng.Intn(4) == 0})
+		plan.Sessions = append(plan.Sessions, c19Session{Version: v, Blocks: k, Kill: rng.Intn(4) == 0, Force: rng.Intn(3) == 0})
 		h += uint32(k)
 		bounds = append(bounds, h)
 	}
@@ -196,13 +199,21 @@ func (checkC19) Run(env *Env, sc *Scenario) (*Violation, error) {
 				env.Stats.Probe("refused_start")
 				// with the override the daemon must start
 				r2 := sim.NewReplica(w, dir)
+				r2.Follow = true
 				r2.SyncVersion, r2.SetVersion, r2.DisableForks = s.Version, true, true
+				r2.OnCommit = r.OnCommit
 				if err := r2.Start(); err != nil {
 					viol = &Violation{Prop: "C19", Oracle: "override", Signature: "DisableHardForkCheck does not let the daemon start", Detail: err.Error()}
-				} else {
-					r2.Stop()
+					continue
 				}
-				continue
+				env.Stats.Lifetimes++
+				if !s.Force || viol != nil {
+					r2.Stop()
+					continue
+				}
+				// the operator insists: this build syncs its blocks under the override
+				env.Stats.Probe("refused_session_forced_with_override")
+				r = r2
 			}
 			if viol != nil {
 				r.Stop()
